@@ -29,7 +29,7 @@ theorem fieldBlocks_at (lib : LibCode) (tab : Tab) (P : Program) (y0 sp : Nat) (
     | cons off offs =>
       simp only [List.length_cons, Nat.add_right_cancel_iff] at hlen
       have hab' : ∀ nm tg t, (nm, tg, t) ∈ fs → Above tab t := fun nm tg t hm => hab nm tg t (List.mem_cons_of_mem _ hm)
-      simp only [fieldBlocks] at hat ⊢
+      simp only [fieldBlocks, fieldWhole_sub hsf.1] at hat ⊢
       cases hf0 : List.find? (fun g => g.idx == i) rs with
       | none =>
         simp only [hf0] at hat ⊢
